@@ -88,7 +88,8 @@ PropC09e(e) == e.ev = "fillell" =>
        /\ e.expand.outcome = "ok"
        /\ e.once.outcome = (IF ok THEN "ok" ELSE "refused") /\ e.steps.outcome = e.once.outcome
        /\ ok => /\ Norm(e.once.abs) = Norm(exp) \/ Norm(e.once.abs) = Norm(Subst(SpecNumbered(e.tmpl.abs, e.cnt), e.sigma))
-                /\ e.once.vars = RemainingVars(t1, e.sigma)
+                \* (a single remaining ellipsis may be called ... or ...[0], as in C10)
+                /\ e.once.vars = RemainingVars(t1, e.sigma) \/ e.once.vars = RemainingVars(SpecNumbered(e.tmpl.abs, e.cnt), e.sigma)
                 /\ Same(e.once, e.steps)
 
 \* ------------------------------------------------------------------ C12
@@ -105,9 +106,11 @@ PropC12(e) ==
        LET c == CodeOf(e.f)  dom == ArgInDomain(c, e.arg) IN
        /\ e.res.outcome = (IF dom THEN "ok" ELSE "refused")
        /\ e.fillres.outcome = e.res.outcome                            \* a fill is refused exactly as the factory refuses
+       /\ ("fillres2" \in DOMAIN e => (e.fillres2.outcome = e.res.outcome /\ (dom => e.fillres2.bytes = e.res.bytes)))
        /\ dom => /\ NormEl(e.res.abs.e[e.pos + 1]) = NormEl(e.arg)      \* stored
                  /\ Words(e.res.string)[2 + e.pos] = ElemText(e.arg)    \* printed
-                 /\ e.res.bytes = EncItem(ByteLevel([f |-> e.f, e |-> IF e.pos = 1 THEN <<e.first, e.arg>> ELSE <<e.arg>>]))
+                 /\ e.res.bytes = EncItem(ByteLevel([f |-> e.f, e |-> (IF e.pos = 1 THEN <<e.first, e.arg>> ELSE <<e.arg>>)
+                                                                        \o (IF "none" \in DOMAIN e.after THEN <<>> ELSE <<e.after>>)]))
                  /\ NormEl(e.fillres.abs.e[1]) = NormEl(e.arg)
                  /\ e.fillres.bytes = EncItem(ByteLevel([f |-> e.f, e |-> <<e.arg>>]))
   /\ e.ev = "ctorbin" => LET v == BinLiteral(e.text) IN
@@ -125,7 +128,7 @@ PropC12(e) ==
        /\ e.dupsib = "refused" /\ e.dupcousin = "refused" /\ e.duprename = "refused" /\ e.dupinsert = "refused" /\ e.dupinsertdeep = "refused"
        /\ e.dupnest = "refused" /\ e.dupnestfill = "refused"        \* (repeat markers included)
        /\ e.dupgen = "refused" /\ e.dupgenfill = "refused"          \* (names generated by an expansion included)
-       /\ e.dupsameU = "refused" /\ e.dupsameI = "refused" /\ e.dupsameF = "refused" /\ e.dupsameB = "refused" /\ e.dupsameT = "refused"
+       /\ e.dupsameU = "refused" /\ e.dupsameI = "refused" /\ e.dupsameF = "refused" /\ e.dupsameB = "refused" /\ e.dupsameT = "refused" /\ e.dupsamewide = "refused"
   /\ e.ev = "ctorbounds" =>
        LET lo == e.lo  hi == e.hi
            ok == ~lo.neg /\ (~hi.neg \/ hi.dec = <<1>>) /\ (hi.neg \/ Cmp(FromDec(lo.dec), FromDec(hi.dec)) <= 0) IN
